@@ -21,6 +21,7 @@ import EEM.Model.Serial
 import EEM.Model.History
 import EEM.Model.HourlyPrep
 import EEM.Model.Refine
+import EEM.Model.Resample
 
 open EEM EEM.Proto EEM.Model
 
@@ -570,6 +571,41 @@ def opGetK (args : List String) : String :=
   | some [tmins, tmaxs, hb, pkh, cb, pkc] => showList (Model.Refine.getK hb pkh cb pkc tmins tmaxs)
   | _ => "bad-op"
 
+def parseRat (s : String) : Option Rat :=
+  match s.splitOn "/" with
+  | [n] => n.toInt?.map fun n => (n : Rat)
+  | [n, d] => do
+    let n ← n.toInt?
+    let d ← d.toNat?
+    if d = 0 then none else some ((n : Rat) / (d : Rat))
+  | _ => none
+
+def parseReading (s : String) : Option (Int × Option Rat) :=
+  match s.splitOn ":" with
+  | [t, "nan"] => t.toInt?.map fun t => (t, none)
+  | [t, v] => do some (← t.toInt?, some (← parseRat v))
+  | _ => none
+
+def showRat (r : Rat) : String := s!"{r.num}/{r.den}"
+
+/-- `resample <billing_monthly|billing_bimonthly|subdaily> <b0,b1,...> <t:num/den|t:nan ...>` -/
+def opResample (args : List String) : String :=
+  match args with
+  | mode :: bounds :: reads =>
+    match (bounds.splitOn ",").mapM String.toInt?, reads.mapM parseReading with
+    | some bs, some rs =>
+      let out : Option (List (Option Rat)) :=
+        match mode with
+        | "billing_monthly" => some (Model.Resample.billingDaily .monthly rs bs)
+        | "billing_bimonthly" => some (Model.Resample.billingDaily .bimonthly rs bs)
+        | "subdaily" => some (Model.Resample.subDaily rs bs)
+        | _ => none
+      match out with
+      | some l => "ok " ++ " ".intercalate (l.map fun | some r => showRat r | none => "none")
+      | none => "bad-op"
+    | _, _ => "bad-op"
+  | _ => "bad-op"
+
 def step (line : String) : String :=
   match words line with
   | "submodel" :: args => opPredictSubmodel args
@@ -579,6 +615,7 @@ def step (line : String) : String :=
   | "fix" :: args => opFix args
   | "smooth" :: args => opSmooth args
   | "refine" :: args => opRefine args
+  | "resample" :: args => opResample args
   | "getk" :: args => opGetK args
   | "segrow" :: args => opSegRow args
   | "contribs" :: args => opContribs args
